@@ -1801,3 +1801,20 @@ impl<'a> CompiledProjection<'a> {
         self.expressions.len()
     }
 }
+
+/// kind: 0 = CAST(text AS DATE), 1 = CAST(text AS TIME), 2 = CAST(text AS TIMESTAMP)
+#[cfg(kahflane_turdb_verif)]
+pub fn verif_cast_parse_temporal(kind: u8, s: &str) -> Option<i64> {
+    let expr = crate::sql::ast::Expr::Literal(crate::sql::ast::Literal::Null);
+    let pred = CompiledPredicate::new(&expr, Vec::new());
+    let v = match kind {
+        0 => pred.parse_date(s),
+        1 => pred.parse_time(s),
+        _ => pred.parse_timestamp(s),
+    };
+    match v {
+        Some(Value::Int(i)) => Some(i),
+        Some(Value::TimestampTz { micros, .. }) => Some(micros),
+        _ => None,
+    }
+}
